@@ -164,6 +164,7 @@ def routes(ctx, r, n_cases):
         res = exc = None
         try:
             res = fn()
+            KEEP.append(res)
         except Exception as e:
             exc = e
         after = [(lbl, snapshot.value_object(o) if hasattr(o, "GetQuantity") else csnap(o)) for lbl, o in sources]
@@ -330,6 +331,7 @@ def chains(ctx, r, n_chains):
                 ctx.violation("chain-result-not-FixedArray:%s" % k, dict(case, result=repr(res)[:160]), replay=case)
                 break
             cur = res
+            KEEP.append(res)
 
 
 # ---------------------------------------------------------------------------------------- index
@@ -522,6 +524,7 @@ def curves(ctx, r, n_hist):
         ctx.ev()
         try:
             c = Curve(img, dom)
+            KEEP.append(c)
         except Exception as e:
             if ni == nd:
                 ctx.violation("Curve-valid-refused:%s" % type(e).__name__, {"history": hist, "error": str(e)[:200]}, replay={"history": hist})
@@ -577,8 +580,14 @@ def curves(ctx, r, n_hist):
                     ctx.violation("Curve-refused-call-changed-it:%s" % how, case, replay=case)
 
 
+#: what the workloads produced since the last sweep (kept alive so that the sweep over *all live instances* has something
+#: to look at - including whatever those objects keep alive inside the library)
+KEEP = []
+
+
 def do_sweep(ctx, where):
     bad, n_fa, n_cv = sizes.sweep()
+    del KEEP[:]
     ctx.count("gc sweep: live FixedArrays checked", n_fa)
     ctx.count("gc sweep: live Curves checked", n_cv)
     ctx.ev(n_fa + n_cv)
@@ -628,6 +637,7 @@ def run(ctx):
     from .. import suite_workload
 
     suite_workload.run(ctx, "C11")
+    ctx.inconclusive_if(ctx.counters.get("gc sweep: live FixedArrays checked", 0) == 0 or ctx.counters.get("gc sweep: live Curves checked", 0) == 0, "the sweep over live instances saw no FixedArray or no Curve")
     ctx.inconclusive_if(probe.BOUNDARY["FixedArray.__init__"] == 0 or probe.BOUNDARY["FixedArray.ChangingIndex"] == 0 or probe.BOUNDARY["Curve.SetImage"] == 0, "deciding wrappers never reached")
     ctx.inconclusive_if(ctx.counters.get("refused", 0) == 0 or ctx.counters.get("accepted", 0) == 0 or ctx.counters.get("curve refused", 0) == 0, "no refused or no accepted attempt observed")
 
